@@ -8,5 +8,6 @@ git -C /repo worktree add -q --detach "$wt" HEAD || exit 2
 if ! git -C "$wt" apply "$patch"; then echo "PATCH DOES NOT APPLY"; git -C /repo worktree remove --force "$wt"; exit 2; fi
 ZK_REPO=$wt /verif/check "$prop" "$tier"; rc=$?
 git -C /repo worktree remove --force "$wt"
+ln -sfn /repo /verif/.build/repo-under-test
 # restore the build for /repo lazily (next ./check rebuilds)
 exit $rc
